@@ -58,6 +58,22 @@ class SqlglotFacts:
             raise AnalysisError(f"sqlglot class table too small ({len(out)})")
         return out
 
+    @cached_property
+    def type_sets(self) -> dict[str, list[str]]:
+        """DataType.<NAME>_TYPES class-level sets (TEXT_TYPES, NUMERIC_TYPES, …): name -> member names, splats resolved"""
+        out: dict[str, list[str]] = {}
+        dt = next((n for n in self._exp.body if isinstance(n, ast.ClassDef) and n.name == "DataType"), None)
+        for s in (dt.body if dt is not None else []):
+            if isinstance(s, ast.Assign) and isinstance(s.targets[0], ast.Name) and s.targets[0].id.endswith("_TYPES") and isinstance(s.value, ast.Set):
+                members: list[str] = []
+                for e in s.value.elts:
+                    if isinstance(e, ast.Starred) and isinstance(e.value, ast.Name):
+                        members += out.get(e.value.id, [])
+                    elif isinstance(e, ast.Attribute):
+                        members.append(e.attr)
+                out[s.targets[0].id] = members
+        return out
+
     def mro(self, cls: str) -> list[str]:
         seen: list[str] = []
         todo = [cls]
